@@ -1,5 +1,5 @@
 #!/usr/bin/env python3
-import sys, os, importlib.util
+import sys, os, importlib.util, importlib.machinery
 here = os.path.dirname(os.path.abspath(__file__))
 sys.path.insert(0, here)
 spec = importlib.util.spec_from_loader("check", importlib.machinery.SourceFileLoader("check", os.path.join(here, "check")))
